@@ -17,5 +17,6 @@ CONSTANTS
   LiveRounds = FALSE
   CachePutFails = FALSE
   CrashInCreate = FALSE
+  IssuerEntries = {}
   Stops = FALSE
 CHECK_DEADLOCK FALSE
